@@ -147,9 +147,11 @@ class HpcSubmitter:
         try:
             blocked_jobs = []
             submitted_jobs = []
-            for group in self._cluster.config.submission_groups:
-                if not queue.is_full():
-                    self._submit_batches(queue, group, blocked_jobs, submitted_jobs)
+            if not self._cluster.is_canceled():
+                # A canceled submission only collects results; it must never submit new batches.
+                for group in self._cluster.config.submission_groups:
+                    if not queue.is_full():
+                        self._submit_batches(queue, group, blocked_jobs, submitted_jobs)
 
             num_submissions = self._batch_index - starting_batch_index
             logger.info(
